@@ -235,6 +235,10 @@ def gen_deck(rng):
         k_out = len(cell_ids) - 1
         vals[k_out] = 0
         vals[0] = max(vals[0], 1)
+        if k_out >= 3 and rng.random() < 0.4:
+            # an arithmetic descent into the zero of the outside cell: the
+            # only place where interpolated importances show in the output
+            vals[k_out - 2], vals[k_out - 1] = rng.choice([(2, 1), (4, 2), (6, 3)])
         data.append([T('imp:n', 'word'), (tuple(vals), 'impvals', 'end')])
         if rng.random() < 0.3:
             vals2 = [rng.choice([0, 1, 1]) for _ in vals]
@@ -321,9 +325,12 @@ def respell(rng, text, fortran, e0=False):
     if body[0] in '+-':
         sign, body = body[0], body[1:]
     dec = Decimal(body)
-    if e0:
+    if e0 or (fortran and rng.random() < 0.12):
         mant = body if '.' in body else body + '.0'
-        return sign + mant + rng.choice(['e0', 'E0', '+0', '-0', 'd0', 'e00'])
+        if 'e' in mant.lower() or 'd' in mant.lower():
+            return text
+        return sign + mant + rng.choice(['', '0', '00']) \
+            + rng.choice(['e0', 'E0', '+0', '-0', 'd0', 'e00', 'D+00'])
     roll = rng.random()
     if roll < 0.2:
         return text
@@ -341,6 +348,8 @@ def respell(rng, text, fortran, e0=False):
     mtxt = format(dec.scaleb(-shift), 'f')
     if '.' not in mtxt:
         mtxt += rng.choice(['.0', '.', ''])
+    elif fortran and rng.random() < 0.3:
+        mtxt += rng.choice(['0', '00'])      # 1.50e-3
     if mtxt.startswith('0.') and rng.random() < 0.3:
         mtxt = mtxt[1:]
     forms = [f'e{shift}', f'E{shift}']
@@ -425,6 +434,7 @@ class Layout:
         self.p_comment = rng.choice([0, 0.2, 0.6])
         self.p_dollar = rng.choice([0, 0.2, 0.6])
         self.p_short = rng.choice([0, 1])
+        self.p_noeq = rng.choice([0, 0, 0.5])
         self.p_num = rng.choice([0.3, 1]) if numbers else 0
         self.message = rng.random() < 0.3
         self.pending = stream      # one known-failing respelling to place
@@ -550,6 +560,12 @@ def render_card(card, layout, first_card_of_block=False):
     if cur:
         layout.used.add('blanks')
     for k, (tok, kind, glue) in enumerate(card):
+        if tok == '=' and kind == 'punct' and rng.random() < layout.p_noeq:
+            # keyword value: the equal sign is optional
+            layout.used.add('equal-sign-dropped')
+            if not cur or not cur[-1].isspace():
+                cur += ' '
+            continue
         cur += layout.word(tok) if kind == 'word' else tok
         if k == len(card) - 1:
             break
